@@ -17,7 +17,7 @@ CONFIG = {
         "V.C06.no_panic", "V.C06.pseudo_sender_required", "V.C06.pseudo_mapping_signers_valid", "V.C06.pseudo_foreign_mapping_rejected",
         "V.C06.membership_eq_auth_reading", "V.C06.auth_authoriser_required", "V.C06.memberContent_eq_spec", "V.C06.memberContent_eq_auth",
         "V.C06.verify_all_pointwise", "V.C06.verify_all_batch_irrelevant", "V.C06.verify_all_spec",
-        "V.C06Ring.verify_with_keyring_sound", "V.C06Ring.verify_with_keyring_sound_validAt", "V.C06Ring.verify_with_keyring_one_bad",
+        "V.C06Ring.verify_with_keyring_sound", "V.C06Ring.verify_all_with_keyring_sound", "V.C06Ring.verify_with_keyring_sound_validAt", "V.C06Ring.verify_with_keyring_one_bad",
         "V.C06Ring.verify_with_keyring_complete",
     ] + [t for t in _C12.CONFIG["theorems"] if not any(k in t for k in ("checkKeys", "checkVerifyKeys", "publicKey_", "mapServerKeys", "fetchKeysForServer", "fetchNotaryKeys", "perspective", "fetcher_accepts", "direct_accepts", "notaryValid", "past_valid_until"))],
     "rule": "signers.verify_all (round 3): VerifyAllEventSignatures on 2-7 events of one version with one verifier - events with several required "
